@@ -39,8 +39,10 @@ def parse_stdout(out):
             if m and not line.startswith("    "):
                 listed.append((m.group("file"), m.group("sel")))
     m = re.search(r"Processing (\d+) files", out)
+    recognised = bool(m) or "No CSS files found" in out
+    summary_seen = bool(RE_READABLE.search(out) or RE_TUNED.search(out) or RE_FAILED.search(out))
     return {"readable": one(RE_READABLE), "adjusted": one(RE_TUNED), "attention": one(RE_FAILED), "listed": listed,
-            "processing": int(m.group(1)) if m else None}
+            "processing": int(m.group(1)) if m else None, "recognised": recognised, "summary_seen": summary_seen}
 
 
 def run_cli(files, target, settings, setup=None, audit=False, keep=None):
